@@ -1,7 +1,8 @@
 #[cfg(not(feature = "std"))]
 use alloc::{vec, vec::Vec};
 
-use hashbrown::HashMap;
+use anyhow::{anyhow, ensure, Result};
+use hashbrown::{HashMap, HashSet};
 use num::Integer;
 
 use crate::hash::hash_types::RichField;
@@ -53,6 +54,7 @@ pub(crate) fn compress_merkle_proofs<F: RichField, H: Hasher<F>>(
 
 /// Decompress compressed Merkle proofs.
 /// Note: The data and indices must be in the same order as in `compress_merkle_proofs`.
+#[cfg(test)]
 pub(crate) fn decompress_merkle_proofs<F: RichField, H: Hasher<F>>(
     leaves_data: &[Vec<F>],
     leaves_indices: &[usize],
@@ -60,6 +62,30 @@ pub(crate) fn decompress_merkle_proofs<F: RichField, H: Hasher<F>>(
     height: usize,
     cap_height: usize,
 ) -> Vec<MerkleProof<F, H>> {
+    try_decompress_merkle_proofs(
+        leaves_data,
+        leaves_indices,
+        compressed_proofs,
+        height,
+        cap_height,
+    )
+    .expect("Malformed compressed Merkle proofs.")
+}
+
+/// Same as `decompress_merkle_proofs`, for compressed proofs of unknown provenance: fails if a
+/// path holds fewer or more siblings than the decompression calls for.
+pub(crate) fn try_decompress_merkle_proofs<F: RichField, H: Hasher<F>>(
+    leaves_data: &[Vec<F>],
+    leaves_indices: &[usize],
+    compressed_proofs: &[MerkleProof<F, H>],
+    height: usize,
+    cap_height: usize,
+) -> Result<Vec<MerkleProof<F, H>>> {
+    ensure!(cap_height <= height, "Merkle cap is higher than the tree.");
+    ensure!(
+        leaves_data.len() == leaves_indices.len() && leaves_indices.len() == compressed_proofs.len(),
+        "Mismatched numbers of leaves, indices and compressed Merkle proofs."
+    );
     let num_leaves = 1 << height;
     let compressed_proofs = compressed_proofs.to_vec();
     let mut decompressed_proofs = Vec::with_capacity(compressed_proofs.len());
@@ -82,9 +108,13 @@ pub(crate) fn decompress_merkle_proofs<F: RichField, H: Hasher<F>>(
             let index = (i + num_leaves) >> layer_height;
             let current_hash = seen[&index];
             let sibling_index = index ^ 1;
-            let sibling_hash = *seen
-                .entry(sibling_index)
-                .or_insert_with(|| *p.next().unwrap());
+            let sibling_hash = match seen.get(&sibling_index) {
+                Some(&h) => h,
+                None => *p
+                    .next()
+                    .ok_or_else(|| anyhow!("Compressed Merkle proof is too short."))?,
+            };
+            seen.insert(sibling_index, sibling_hash);
             let parent_hash = if index.is_even() {
                 H::two_to_one(current_hash, sibling_hash)
             } else {
@@ -92,6 +122,15 @@ pub(crate) fn decompress_merkle_proofs<F: RichField, H: Hasher<F>>(
             };
             seen.insert(index >> 1, parent_hash);
         }
+    }
+    // A repeated leaf index comes with a copy of the path of its first occurrence, of which it
+    // uses nothing; every other path must have been used up.
+    let mut first_occurrences = HashSet::new();
+    for (&i, p) in leaves_indices.iter().zip(siblings.iter_mut()) {
+        ensure!(
+            !first_occurrences.insert(i) || p.next().is_none(),
+            "Compressed Merkle proof is too long."
+        );
     }
     // For every index, go up the tree by querying `seen` to get node values.
     for &i in leaves_indices {
@@ -109,7 +148,7 @@ pub(crate) fn decompress_merkle_proofs<F: RichField, H: Hasher<F>>(
         decompressed_proofs.push(decompressed_proof);
     }
 
-    decompressed_proofs
+    Ok(decompressed_proofs)
 }
 
 #[cfg(test)]
